@@ -556,6 +556,8 @@ class Interp:
 
     def ev_IfExp(self, e):
         c = self.cond_of(self.ev(e.test), e)
+        if c[0] == 'const':
+            return self.ev(e.body if c[1] else e.orelse)
         a = self.as_scalar(self.ev(e.body), e)
         b = self.as_scalar(self.ev(e.orelse), e)
         if a == b:
